@@ -86,8 +86,9 @@ def run(eng, rep) -> None:
                     rep.check(name_expr in msg or "typename" in msg, "R08.1", f.file, f.qual, "return %s" % vs[:80], "error names the unresolved type", "the error for an unresolved reference does not contain the type name")
                     rep.check(len(v.args) > 1 or any(k.arg == "node" for k in v.keywords), "R08.1", f.file, f.qual, "error(..., node)", "error carries the position of the reference", "the error for an unresolved reference has no source position")
                 else:
-                    rep.violation("R08.1", f.file, f.qual, "return %s" % vs[:80], "composed-type callback returns something that is neither a resolved tag nor an error")
-        rep.floor("R08.1", "tag-returning paths in the composed-type callback", n_tag, 2)
+                    rep.undecided("R08.1", f.file, f.qual, "return %s" % vs[:80], "returned value is not syntactically a StructType/EnumType tag or an error (kind chosen dynamically)")
+        if n_tag < 2:
+            rep.undecided("R08.1", f.file, f.qual, "tag-returning paths", "fewer than two syntactic tag returns (%d): the composed-type callback is not in the recognised if/elif form" % n_tag)
         rep.check(err_seen, "R08.1", f.file, f.qual, "else: return error(...)", "an unresolved name yields an error", "no path returns an error: an undeclared name cannot be rejected")
     # lookups compare names over the right list
     v2 = prog.cls("fcp.specs.v2.FcpV2")
@@ -107,6 +108,24 @@ def run(eng, rep) -> None:
         rep.check(okl and bool(nothing), "R08.1", m.file, m.qual, "for x in self.%s: if x.name == name: return Some(x); return Nothing()" % lst, "exact-name lookup over self.%s" % lst,
                   "lookup is not an exact-name search over self.%s returning Some(match)/Nothing()" % lst)
 
+    # kind must be established by a kind-specific lookup: a lookup over the mixed population
+    # (structs + enums) matches by name only and cannot justify a struct-vs-enum tag
+    for n in ast.walk(f.node):
+        if isinstance(n, ast.Call) and isinstance(n.func, ast.Attribute) and norm(n.func.value) == "self.fcp":
+            m = v2.methods.get(n.func.attr)
+            if m is None:
+                continue
+            iters = [canon(x.iter) for x in ast.walk(m.node) if isinstance(x, (ast.For, ast.comprehension))]
+            mixed = any("structs" in it and "enums" in it for it in iters) or any("get_types()" in it for it in iters)
+            if mixed:
+                rep.violation("R08.1", f.file, f.qual, norm(n, 60), "reference kind is decided by %s, which searches structs and enums together by name only: an enum can be tagged as a struct (or vice versa)" % n.func.attr)
+    # no state shared between transformer instances
+    for st in tcls.node.body:
+        if isinstance(st, (ast.Assign, ast.AnnAssign)):
+            val = st.value
+            tname = st.targets[0].id if isinstance(st, ast.Assign) and isinstance(st.targets[0], ast.Name) else (st.target.id if isinstance(st, ast.AnnAssign) and isinstance(st.target, ast.Name) else None)
+            if val is not None and (isinstance(val, (ast.Dict, ast.List, ast.Set)) or (isinstance(val, ast.Call) and dotted(val.func) in ("dict", "list", "set", "defaultdict"))):
+                rep.violation("R08.2", tcls.file, tcls.qual, norm(st, 60), "class-level mutable attribute '%s' is shared by every transformer: declarations recorded while parsing one file remain visible to later, unrelated parses" % tname)
     # ---- R08.2 -----------------------------------------------------------------------
     init = tcls.methods.get("__init__")
     fresh = init is not None and any(isinstance(n, ast.Assign) and norm(n.targets[0]) == "self.fcp" and isinstance(n.value, ast.Call) and not n.value.args for n in walk_local(init.node))
